@@ -69,13 +69,19 @@ func (r *Recorder) Print(l *label.Label, line string) {
 func (r *Recorder) RequirementLoading(l *label.Label, version string)               {}
 func (r *Recorder) RequirementLoaded(l *label.Label, version string)                {}
 func (r *Recorder) RequirementLoadFailed(l *label.Label, version string, err error) {}
-func (r *Recorder) ModuleLoading(l *label.Label)                                    { r.add(Event{Kind: "ModuleLoading", Label: l.String()}) }
-func (r *Recorder) ModuleLoaded(l *label.Label)                                     { r.add(Event{Kind: "ModuleLoaded", Label: l.String()}) }
+func (r *Recorder) ModuleLoading(l *label.Label) {
+	r.add(Event{Kind: "ModuleLoading", Label: l.String()})
+}
+func (r *Recorder) ModuleLoaded(l *label.Label) {
+	r.add(Event{Kind: "ModuleLoaded", Label: l.String()})
+}
 func (r *Recorder) ModuleLoadFailed(l *label.Label, err error) {
 	r.add(Event{Kind: "ModuleLoadFailed", Label: l.String(), Err: errStr(err)})
 }
-func (r *Recorder) LoadDone(err error)             { r.add(Event{Kind: "LoadDone", Err: errStr(err)}) }
-func (r *Recorder) TargetUpToDate(l *label.Label) { r.add(Event{Kind: "TargetUpToDate", Label: l.String()}) }
+func (r *Recorder) LoadDone(err error) { r.add(Event{Kind: "LoadDone", Err: errStr(err)}) }
+func (r *Recorder) TargetUpToDate(l *label.Label) {
+	r.add(Event{Kind: "TargetUpToDate", Label: l.String()})
+}
 func (r *Recorder) TargetEvaluating(l *label.Label, reason string, d diff.ValueDiff) {
 	e := Event{Kind: "TargetEvaluating", Label: l.String(), Reason: reason}
 	if d != nil {
@@ -90,7 +96,7 @@ func (r *Recorder) TargetFailed(l *label.Label, err error) {
 func (r *Recorder) TargetSucceeded(l *label.Label, changed bool) {
 	r.add(Event{Kind: "TargetSucceeded", Label: l.String(), Changed: changed})
 }
-func (r *Recorder) RunDone(err error)         { r.add(Event{Kind: "RunDone", Err: errStr(err)}) }
+func (r *Recorder) RunDone(err error)          { r.add(Event{Kind: "RunDone", Err: errStr(err)}) }
 func (r *Recorder) FileChanged(l *label.Label) {}
 
 // equalShared is Starlark equality for environments that share sub-values heavily (every helper function appears once,
@@ -189,9 +195,9 @@ type BuildReq struct {
 	Dry         bool     `json:"dry,omitempty"`
 	Args        []string `json:"args,omitempty"`
 	PreferIndex bool     `json:"prefer_index,omitempty"`
-	GC          bool     `json:"gc,omitempty"`     // run GC after load instead of building
-	Twice       bool     `json:"twice,omitempty"`  // run the target twice on the same loaded project
-	Reload      bool     `json:"reload,omitempty"` // Reload() between the two runs
+	GC          bool     `json:"gc,omitempty"`          // run GC after load instead of building
+	Twice       bool     `json:"twice,omitempty"`       // run the target twice on the same loaded project
+	Reload      bool     `json:"reload,omitempty"`      // Reload() between the two runs
 	HashAround  bool     `json:"hash_around,omitempty"` // hash the whole tree after Load and again after Run/GC
 	// WarmOverlay (a directory) makes this a build on a long-lived project, the way `dawn watch` builds: the tree at Root
 	// is first built completely (always) on the freshly loaded Project, then the files of WarmOverlay replace the tree's
@@ -256,7 +262,11 @@ func Build(req BuildReq) (res BuildRes) {
 		res.RunErr = "parse: " + err.Error()
 		return
 	}
-	opts := &dawn.RunOptions{Always: req.Always, DryRun: req.Dry}
+	// a plain build passes no options at all, as Project.Watch does
+	var opts *dawn.RunOptions
+	if req.Always || req.Dry {
+		opts = &dawn.RunOptions{Always: req.Always, DryRun: req.Dry}
+	}
 	if req.WarmOverlay != "" {
 		Disarmed.Store(true)
 		if err := proj.Run(l, &dawn.RunOptions{Always: true}); err != nil {
